@@ -187,7 +187,7 @@ def conclude(prop, mod, tier, seed, m, errs, wall):
     unknown_known = []
     for kf, w in sorted(m["known"].items()):
         e = known.get(kf)
-        if e and e.get("status") == "known" and e.get("property") == prop:
+        if e and e.get("status") == "known" and (e.get("property") == prop or prop in e.get("also_affects", [])):
             print(f"KNOWN-FINDING: property={prop} {kf}: {e['what']} (hit {m['known_counts'][kf]}x, e.g. {json.dumps(w['detail'], default=str)[:300]})")
         else:
             unknown_known.append(kf)
